@@ -488,6 +488,35 @@ def mon_C07(st):
                 if any(o[0] in "oa" for o in start_ops) and t.S is not None and t.S <= qj and t.X is None:
                     out.append(("self-cancelling-worker-not-cancelled", t.S,
                                 f"pool {pi} task {t.tid} cancelled its own group in its body and kept running"))
+    # … and so must a worker that does it *between two awaits* (hook point `n`: right after the event `N`, before it
+    # awaits again).  A worker that lets a CancelledError through (or returns on it) and has reached an `N` has not been
+    # cancelled before, so its group is still known and the call reaches it; the logged result of the call is checked too
+    if qj is not None:
+        for pi, ps in enumerate(st.pools):
+            for t in ps.tasks.values():
+                r = t.req
+                if (r is None or r.spec is None or r.spec["hooks"] == "-" or r.spec["mode"] != "g" or r.spec["resume"]
+                        or t.X is not None):
+                    continue
+                next_ops = []
+                for part in r.spec["hooks"].split("|"):
+                    pt, ops = part.split(":")
+                    if pt == "n":
+                        next_ops = [o for o in ops.split(";") if o]
+                if not any(o[0] in "oa" for o in next_ops):
+                    continue
+                for jn in t.N:
+                    if jn > qj or st.obs[jn] is None or pi >= len(st.obs[jn]["pools"]):
+                        continue
+                    evs = st.obs[jn]["pools"][pi]["ev"]
+                    if f"N{t.tid}" not in evs:
+                        continue
+                    i = evs.index(f"N{t.tid}")
+                    results = evs[i + 1:i + 1 + len(next_ops)]
+                    if any(o[0] in "oa" and h == "h[ok]" for o, h in zip(next_ops, results)):
+                        out.append(("self-cancelling-worker-not-cancelled", jn,
+                                    f"pool {pi} task {t.tid} cancelled its own group between two awaits and kept running"))
+                        break
     return out
 
 
